@@ -170,7 +170,15 @@ def enclosing_solve(A, b, tag="x"):
         xi, ex = _to_int_matrix(xk.reshape(-1, 1))
         Ax = Ai.dot(xi)[:, 0]
         sc = Fraction(2) ** (ea + ex)
-        rinf = max(abs(bk[i] - Ax[i] * sc) for i in range(n))
+        r0 = [bk[i] - Ax[i] * sc for i in range(n)]
+        # one step of iterative refinement with the EXACT residual: x = x0 + Z r0 (both parts kept as exact binary rationals),
+        # whose own residual (again exact) is ~1e-30 instead of ~1e-15, so the enclosure radius becomes negligible
+        dk = Z @ np.array([float(v) for v in r0])
+        di, ed = _to_int_matrix(dk.reshape(-1, 1))
+        Ad = Ai.dot(di)[:, 0]
+        scd = Fraction(2) ** (ea + ed)
+        rinf = max(abs(r0[i] - Ad[i] * scd) for i in range(n))
+        xk_exact = [Fraction(float(xk[i])) + Fraction(float(dk[i])) for i in range(n)]
         # magnitude of the monomial over the box
         box = {}
         for v, e in m:
@@ -181,7 +189,7 @@ def enclosing_solve(A, b, tag="x"):
         lo, hi = _smt.mono_interval(m, box) if m else (Fraction(1), Fraction(1))
         eps += normAinv * rinf * max(abs(lo), abs(hi))
         for i in range(n):
-            v = Fraction(float(xk[i]))
+            v = xk_exact[i]
             if v:
                 out[i] = out[i].add(Poly({m: v}))
     # round the bound up to a short dyadic rational
